@@ -255,8 +255,16 @@ variable {β : Type} [LT β] [DecidableLT β] [OfNat β 0]
 /-- `SklearnClassifier.predict`, three branches:
 * fitted, no cost matrix: the wrapped estimator's own `predict` (labels `estPred`);
 * fitted, cost matrix: `rand_argmin(P @ cost_matrix_)` decoded through the label encoder;
-* not fitted: `random_state_.choice(arange(k), n, p=p)` (result `choice`, an oracle) decoded. -/
+* not fitted: the same decision on the fallback probabilities `P = predict_proba(X)` (label-count
+  distribution / uniform), with or without a user cost matrix (`cost_matrix_` is `1 - eye` by default). -/
 def sklearnPredict {γ : Type} (classes : List γ) (fitted hasCost : Bool) (estPred : List γ)
+    (P C : List (List α)) (noise : List (List β)) : List (Option γ) :=
+  if fitted && !hasCost then estPred.map some
+  else predictDecision classes P C noise
+
+/-- the definition before commit b88b57ad (kept for the regression theorem only): the unfitted branch
+*sampled* `random_state_.choice(arange(k), n, p=p)` (result `choice`, an oracle) and decoded it. -/
+def sklearnPredictOld {γ : Type} (classes : List γ) (fitted hasCost : Bool) (estPred : List γ)
     (P C : List (List α)) (noise : List (List β)) (choice : List Nat) : List (Option γ) :=
   if fitted then
     if hasCost then predictDecision classes P C noise else estPred.map some
